@@ -40,7 +40,7 @@ func init() {
 				dsts = dstTrees(2, true, true, true)
 			} else {
 				srcs = thin(srcs, 40)
-				srcs = append(srcs, "{ @a @b }", "{ @a @b @c }", "{ @a @b @a }", "{ max %C from { @a @b } @a }", "{ @a allowing overdraft up to %K { 1/2 from @a 1/2 from @b } }")
+				srcs = append(srcs, "{ @a @b }", "{ @a @b @c }", "{ @a @b @a }", "{ max %C from @a max %C from @a @a @b }", "{ 1/5 from @a 3/10 from @a remaining from @a }", "{ max %C from { @a @b } @a }", "{ @a allowing overdraft up to %K { 1/2 from @a 1/2 from @b } }")
 			}
 			for i, s := range srcs {
 				// every source with a plain destination, a rotating richer destination
@@ -318,6 +318,10 @@ func init() {
 			// a reservation larger than the balance must not swallow money received later
 			cases = append(cases, apiCase("C08", "save;credit;spend", []string{"save %N from @a", sendFixed("USD", "@world", "@a"), sends[0]}, nil))
 			cases = append(cases, apiCase("C08", "save;credit;spend", []string{"save [USD *] from @a", sendFixed("USD", "@b", "@a"), sends[2]}, nil))
+			// a posting from the saved account to itself between the save and the spending
+			cases = append(cases, apiCase("C08", "save;self-send;send", []string{"save %N from @a", sendFixed("USD", "@a", "@a"), sends[0]}, nil))
+			cases = append(cases, apiCase("C08", "save;self-send;send", []string{"save %N from @a", sendFixed("USD", "{ @a @world }", "{ 1/2 to @a 1/2 to @b }"), sends[1]}, nil))
+			cases = append(cases, apiCase("C08", "save;self-send;send", []string{"save [USD *] from @a", sendFixed("USD", "@world", "@a"), sendFixed("USD", "@a", "@a"), sends[3]}, nil))
 			// two saves on one account (two assets, two amounts), stores that answer exactly what is asked
 			for _, kind := range []string{"exact", "sparse", "interned"} {
 				st := map[string][2]string{"_store": {"", kind}}
